@@ -34,7 +34,7 @@ def main():
         demo_cmd = meta["demo_cmd"]
         # some agents put a `cp <demo> <dir> &&` step in front: drop it, the files are placed below
         import re
-        demo_cmd = re.sub(r"^(cp \S+ \S+ && )+", "", demo_cmd)
+        demo_cmd = re.sub(r"^((cp|mv) \S+ \S+ && )+", "", demo_cmd)
         # where do the demo files go? by the package clause of the demo file
         PKGDIR = {"klevdb": "", "klevdb_test": "", "message": "pkg/message", "message_test": "pkg/message", "segment": "pkg/segment", "segment_test": "pkg/segment",
                   "index": "pkg/index", "index_test": "pkg/index", "notify": "pkg/notify", "notify_test": "pkg/notify"}
